@@ -101,6 +101,12 @@ pub fn curated() -> Vec<(&'static str, Spec, bool)> {
     add("la_cont_eol", true, vec![r("(?m:end$)"), t("end\n"), r("[a-z]+").prio(1), t("\n")]);
     add("la_cont_let", true, vec![r(r"let(?-u:\b)"), t("let "), r("[a-z]+").prio(1), s(" ")]);
     add("la_cont_half", true, vec![r(r"a+(?-u:\b{end-half})"), r("a+-"), r("[a-z]+").prio(1)]);
+    // one leaf that accepts early on one branch and late on another, next to a second leaf matching
+    // the plain branch (states that differ only in early vs late accept)
+    add("la_alt_merge", true, vec![r(r";|end(?-u:\b)").prio(10), r("[;,.]"), r("[a-z0-9]+").prio(1)]);
+    add("la_alt_merge2", true, vec![r("a|b$").prio(9), r("[ab]"), r("[0-9]")]);
+    add("la_alt_merge3", true, vec![r("x|y(?m:$)").prio(9), r("[xy]"), t("\n")]);
+    add("la_alt_merge_skip", true, vec![s(r";|#(?-u:\b)").prio(10), r("[;#]"), r("[a-z]+")]);
     // skips recognised by a late-accept state (the skip ends in a look-ahead assertion)
     add("skip_la_eol", true, vec![s("//[^\n]*(?m:$)").greedy(), r("[a-z]+"), t("\n"), t("/")]);
     add("skip_la_end", true, vec![s("#[a-z]*$"), r("[a-z]+"), t("#").prio(1)]);
